@@ -38,7 +38,7 @@ instance {α : Type} : IsNil (List α) := ⟨List.isEmpty⟩
 /-- `&x` where a nil-able pointer is expected. -/
 def addr {α : Type} (x : α) : Option α := some x
 
-def repoErr (Id : String := "") (Kind : String := "") (_Raw : GoError := none) : GoError :=
+def repoErr (Id : String := "") (Kind : String := "") (Raw : GoError := none) : GoError :=
   some (.repo Id Kind)
 def wrapErr (e : GoError) : GoError := e.map .wrap
 
@@ -57,6 +57,18 @@ def insertByCmp {α : Type} (cmp : α → α → Int) (t : α) : List α → Lis
   | x :: xs => if cmp t x ≤ 0 then t :: x :: xs else x :: insertByCmp cmp t xs
 /-- `slices.SortStableFunc(xs, cmp)`: the stable sort (equal elements keep their order) -/
 def slices_SortStableFunc {α : Type} (xs : List α) (cmp : α → α → Int) : List α := xs.foldr (insertByCmp cmp) []
+/-- one round of a `for { … }` loop: go round again with the carried variables, or `return v` -/
+inductive Iter (σ ρ : Type) where
+  | next (s : σ)
+  | ret (v : ρ)
+/-- `for { body }`, at most `fuel` rounds; `none` = the loop is still running after that many rounds.
+(Nothing is assumed about termination: the tie theorems say what a call that has returned has done.) -/
+def forever {σ ρ : Type} : Nat → σ → (σ → Iter σ ρ) → Option ρ
+  | 0, _, _ => none
+  | n + 1, s, f =>
+    match f s with
+    | .ret v => some v
+    | .next s' => forever n s' f
 def maps_Clone (m : SMap) : SMap := m
 def maps_Equal (a b : SMap) : Bool := a == b
 def emptyMap : SMap := []
